@@ -470,6 +470,9 @@ func (in *Interp) assert(name string, c *Term) {
 	run.assertNames[name]++
 	run.obligations++
 	c = in.simp(c)
+	if !c.IsConst() {
+		c = in.narrow(c, map[int]*Term{})
+	}
 	if c.IsTrue() {
 		run.trivial++
 		run.discharged++
